@@ -46,15 +46,21 @@ def sym_digest(ctx, content):
     Symbolic input: fresh lower-case hex characters, constrained to behave injectively with respect to
     every other content hashed on this path (collision freedom, also for the 7-character prefix that
     revisions use as their tail)."""
-    if content.is_concrete():
-        return SStr.lit(hashlib.sha256(content.concrete().encode("latin-1")).hexdigest())
     for c, d in ctx.hashes:
         if c.same(content):
             return d
-    n = int(ctx.opts.get("digest_len", 64))
-    d = ctx.fresh_string("hex", n, "sha")
+    if content.is_concrete():
+        d = SStr.lit(hashlib.sha256(content.concrete().encode("latin-1")).hexdigest())
+        n = int(ctx.opts.get("digest_len", 64))
+        if n != 64:
+            d = d.slice(0, n)
+    else:
+        n = int(ctx.opts.get("digest_len", 64))
+        d = ctx.fresh_string("hex", n, "sha")
     pre = d.slice(0, 7)
     for c, d2 in ctx.hashes:
+        if content.is_concrete() and c.is_concrete():
+            continue
         e = content.eq(c)
         same_pre = pre.eq(d2.slice(0, 7))
         same_all = d.eq(d2)
@@ -64,6 +70,9 @@ def sym_digest(ctx, content):
             ctx.add(z3.Not(same_pre) if same_pre is not False else True)
         else:
             ctx.add(z3.If(e, same_all, z3.Not(same_pre)))
+    if content.is_concrete():
+        ctx.hashes.append((content, d))
+        return d
     ctx.hashes.append((content, d))
     ctx.assumptions.add("SHA-256 of symbolic content is modelled as an injective function yielding %d lower-case hex chars; "
                         "distinct contents also differ in their first 7 hex chars (no revision-tail collisions)" % n)
